@@ -26,29 +26,43 @@ Theorem C16_table_covers_unsafe : forallb is_illegal spec_unsafe = true.
 Proof. exact table_covers_unsafe. Qed.
 Print Assumptions C16_table_covers_unsafe.
 
-(* at most 16 characters unless long headers are allowed; guard: contig numbers below 100 000 *)
+(* at most 16 characters unless long headers are allowed - for every contig number function, no guard
+   (holds since the repair of finding F26 contig_number_overflow; before it the clause needed the guard
+   "contig numbers below 100 000" and was refuted without it) *)
 Theorem C16_length : forall cn l outs,
-  (forall i s, 0 <= cn i s < 100000) ->
   pipeline cn false l = Ok outs ->
   Forall (fun o => zlen (r_id o) <= 16 /\ zlen (r_name o) <= 16) outs.
 Proof. exact pipeline_short. Qed.
 Print Assumptions C16_length.
 
-(* the same clause per call of fix_record_name_id, with the guard only on the two numbers used *)
+(* the same clause per call of fix_record_name_id, whatever the set and the record index *)
 Theorem C16_length_per_record : forall cn r set r' set',
-  fix_record_name_id cn false r set = Ok (r', set') ->
-  (0 <= cn (r_idx r) (r_id r) < 100000 -> zlen (r_id r') <= 16) /\
-  (0 <= cn (r_idx r) (r_name r) < 100000 -> zlen (r_name r') <= 16).
+  fix_record_name_id cn false r set = Ok (r', set') -> zlen (r_id r') <= 16 /\ zlen (r_name r') <= 16.
 Proof. exact fix_record_length_local. Qed.
 Print Assumptions C16_length_per_record.
 
-(* without the guard the clause is false (finding contig_number_overflow): a 17 character id *)
-Theorem C16_length_unguarded_refuted :
-  exists l outs, pipeline contig_no false l = Ok outs /\ Exists (fun o => 16 < zlen (r_id o)) outs.
-Proof. exact length_unguarded_refuted. Qed.
-Print Assumptions C16_length_unguarded_refuted.
+(* the repair kept the behaviour: numbers of up to five digits give the documented c<5 digits>_<7 characters>..,
+   every number whose rendering has at most 12 digits is kept in full, in front of a shorter piece of the old name *)
+Theorem C16_shorten_shape : forall cn idx s,
+  (0 <= cn idx s < 100000 -> shorten cn idx s = [99] ++ pad5 (cn idx s) ++ [95] ++ firstn 7 s ++ [46; 46]) /\
+  (zlen (pad5 (cn idx s)) <= 12 ->
+   exists k, shorten cn idx s = [99] ++ pad5 (cn idx s) ++ [95] ++ firstn k s ++ [46; 46]) /\
+  zlen (shorten cn idx s) <= 16.
+Proof.
+  intros cn idx s. split; [apply shorten_ordinary | split; [apply shorten_keeps_number | apply shorten_length]].
+Qed.
+Print Assumptions C16_shorten_shape.
 
-(* the modelled contig number is never negative, so the guard of C16_length is "below 100 000" *)
+(* the witness of the repaired finding: "my contig1234567 of a long name" -> c1234567_myco.. (15 characters) *)
+Theorem C16_length_witness_repaired :
+  exists outs, pipeline contig_no false
+    [([109; 121; 32; 99; 111; 110; 116; 105; 103; 49; 50; 51; 52; 53; 54; 55; 32; 111; 102; 32; 97; 32; 108; 111;
+       110; 103; 32; 110; 97; 109; 101], [110])] = Ok outs /\
+    map r_id outs = [[99; 49; 50; 51; 52; 53; 54; 55; 95; 109; 121; 99; 111; 46; 46]].
+Proof. eexists. split; [exact overflow_witness_repaired | reflexivity]. Qed.
+Print Assumptions C16_length_witness_repaired.
+
+(* the modelled contig number is never negative (pad5 renders exactly the numbers >= 0) *)
 Theorem C16_contig_no_nonneg : forall idx s, 0 <= idx -> 0 <= contig_no idx s.
 Proof. exact contig_no_nonneg. Qed.
 Print Assumptions C16_contig_no_nonneg.
@@ -72,7 +86,6 @@ Print Assumptions C16_named.
    and what that test means *)
 Theorem C16_model_meets_spec : forall cn allow l outs,
   Forall (fun p => fst p <> []) l ->
-  (allow = false -> forall i s, 0 <= cn i s < 100000) ->
   pipeline cn allow l = Ok outs -> spec_ok allow l outs = true.
 Proof. exact pipeline_meets_spec. Qed.
 Print Assumptions C16_model_meets_spec.
@@ -145,19 +158,18 @@ Proof. exact sanitise_safe. Qed.
 Print Assumptions C16_sanitise_safe.
 
 (* ---- non-vacuity ---- *)
-(* "a:b", "ab", a duplicate "ab" and a 21 character id: accepted, all guards of the theorems hold *)
+(* "a:b", "ab", a duplicate "ab" and a 21 character id: accepted, the guard of the theorems holds *)
 Example C16_ex_pipeline :
   let l := [([97; 58; 98], [97; 58; 98]); ([97; 98], [97; 98]); ([97; 98], [97; 98]);
             ([97; 98; 99; 100; 101; 102; 103; 104; 105; 106; 107; 108; 109; 110; 111; 112; 113; 114; 115; 116; 117], [110])] in
   Forall (fun p => fst p <> []) l /\
-  (forall i s, 0 <= cn_const 7 i s < 100000) /\
   exists outs, pipeline (cn_const 7) false l = Ok outs /\
                map r_id outs = [[97; 98; 95; 49]; [97; 98]; [97; 98; 95; 48];
                                 [99; 48; 48; 48; 48; 55; 95; 97; 98; 99; 100; 101; 102; 103; 46; 46]] /\
                map r_orig outs = [Some [97; 58; 98]; None; Some [97; 98];
                                   Some [97; 98; 99; 100; 101; 102; 103; 104; 105; 106; 107; 108; 109; 110; 111; 112; 113; 114; 115; 116; 117]].
 Proof.
-  split; [repeat constructor; discriminate|]. split; [intros; unfold cn_const; lia|].
+  split; [repeat constructor; discriminate|].
   eexists. split; [vm_compute; reflexivity|]. split; reflexivity.
 Qed.
 
